@@ -575,6 +575,7 @@ def step (st : DrvState) (line : String) : DrvState × String :=
     let (rows, cols) := parseGeom geom
     let (b, _) := runCalls false (parseCalls (rest.headD "")) (BState.new rows cols) []
     (st, s!"foot stack={b.stack.length} strans={(b.stack.map fun u => u.node.trans.length).sum} cells={rows * cols} ctrans={b.reg.footprint}")
+  | ["expectverify", w] => (st, s!"expectverify {w}")
   | ["expect", _] => (st, "expect ok")
   | ["expect"] => (st, "expect ok")
   | ["corrupt", hex] =>
